@@ -4,6 +4,7 @@ import DarkluaModel.C05.Dag
 import DarkluaModel.C05.Complete
 import DarkluaModel.C05.Compose
 import DarkluaModel.Shared.VisitorSoundHeapV
+import DarkluaModel.C05.Unrequired
 /-!
 # C05 — a bundle behaves like the program with its modules required normally: property theorems
 
@@ -476,6 +477,131 @@ example : OracleFlat (N := natOps) (fun _ _ _ => []) := by
 
 end nomodules
 
+section unrequired
+
+/-- dead names of the two preludes at the top level -/
+def topDead (M : String) : List DName := [.ref M, .ref "__ref_loaded", .ref "__ref_modules", .ref "__ref_require"]
+
+theorem referenceBlocks_eq (mods : List (String × Block)) (stmts : List Stmt) (last : Option Last) :
+    referenceBlocks mods (.mk stmts last)
+      = .mk (([refLa, .localFn .loc "__ref_require" refRequireFn] ++ mods.map refAssign) ++ stmts) last := by
+  simp only [referenceBlocks, refLa, List.append_assoc]
+  congr 2
+
+/-- **`bundle_refines_partial_unrequired`** — modules ARE bundled (any number, arbitrary bodies), but no
+require designates one of them: at every level ≥ 1 the bundle and the reference program have the
+same outcome. Proved with `Sem.HeapU`: both generated preludes are executed concretely and only
+EXTEND the heap (`StExt`), so the remaining code — the entry, arbitrary, identical on both sides —
+runs from `SRel`-related states (`SRel.init`, `extLeft`, `extRight`) in environments that agree outside
+the dead names `M`, `__ref_loaded`, `__ref_modules`, `__ref_require` (`reflB`, `RRel.retWrap`, `observe_rel`).
+(At level 0 both programs exhaust their budget in their prelude when there is a module.) -/
+theorem bundle_refines_partial_unrequired {N : NumOps} (ρ : ExtOracle N) (hρ : Sem.HeapU.OracleFlat ρ)
+    (externs : List String) (I : BundleInput) (n : Nat)
+    (hres : ∀ lit, I.res lit = none)
+    (hMv : I.M ≠ "v") (hMI : I.M ≠ implName)
+    (hnodup : (I.mods.map fun nb => bytesOf nb.1).Nodup)
+    (hcache : ∀ nb ∈ I.mods, bytesOf nb.1 ≠ bytesOf "cache")
+    (hentry : I.reservedOK I.entry = true) :
+    runProgram ρ (n + 1) externs I.bundle = runProgram ρ (n + 1) externs I.reference := by
+  -- both sides rewrite with the same (identity) hook: the rewritten sources coincide
+  have hf : (fun lit => (I.res lit).map (accessorCall I.M)) = (fun lit => (I.res lit).map refCall) := by
+    funext lit; simp [hres lit]
+  have hfR : ∀ lit, (fun lit => (I.res lit).map refCall) lit = none := fun lit => by simp [hres lit]
+  -- the rewritten entry still respects the dead names (stage-4 chain of identity hooks)
+  have hnoref0 : NoRefB (topDead I.M) I.entry := by
+    intro x hx
+    have h := hentry
+    simp only [BundleInput.reservedOK, BundleInput.reserved, Bool.and_eq_true, List.all_eq_true] at h
+    have := h.1 x (by
+      simp only [topDead, List.mem_cons, List.mem_nil_iff, or_false] at hx
+      simp only [List.mem_cons, List.mem_nil_iff, or_false]
+      rcases hx with h | h | h | h <;> simp [h])
+    simpa using this
+  have hchain : Chain Sem.HeapV.VkB I.entry (rewriteRequires (fun lit => (I.res lit).map refCall) I.entry) :=
+    Visitor.visit_chain_v (rewriteP_hooksV _ hfR) false _ true I.entry ()
+  have hnoref := chain_noRef hchain (topDead I.M) (by intro m h; simp [topDead] at h) hnoref0
+  simp only [BundleInput.bundle, BundleInput.reference, hf]
+  generalize rewriteRequires (fun lit => (I.res lit).map refCall) I.entry = e' at hnoref
+  generalize hm : (I.mods.map fun (x : String × Block) => (x.1, rewriteRequires (fun lit => (I.res lit).map refCall) x.2)) = mods'
+  obtain ⟨stmts, last⟩ := e'
+  -- the two preludes, run concretely
+  have hnodup' : (mods'.map fun nb => bytesOf nb.1).Nodup := by
+    rw [← hm, List.map_map]; exact hnodup
+  have hcache' : ∀ nb ∈ mods', bytesOf nb.1 ≠ bytesOf "cache" := by
+    rw [← hm]; intro nb hnb
+    obtain ⟨x, hx, rfl⟩ := List.mem_map.mp hnb
+    exact hcache x hx
+  let σ0 : State N := initState externs
+  obtain ⟨envB, σB, hexB, hextB, henvB⟩ : ∃ (envB : Env N) (σB : State N),
+      execSs (callClosure ρ (n + 1)) ρ (n + 1) ⟨[], []⟩ (prelude I.M mods') σ0 = .ok (.next envB) σB ∧
+      Sem.HeapU.StExt σ0 σB ∧ (envB.varargs = [] ∧ ∀ nm, DName.ref nm ∉ topDead I.M → lookupAssoc nm envB.locals = none) := by
+    by_cases hne : mods' = []
+    · subst hne
+      exact ⟨⟨[], []⟩, σ0, by simp [prelude, execSs], Sem.HeapU.StExt.refl _, rfl, fun _ _ => rfl⟩
+    · obtain ⟨infos, σ', _, hex, _, hfold⟩ := prelude_establishes (callClosure ρ (n + 1)) ρ n ⟨[], []⟩ I.M mods' σ0 hne
+        hMv hMI hnodup' hcache'
+      refine ⟨_, σ', hex, ?_, rfl, ?_⟩
+      · rw [hfold]
+        exact foldDefs_ext I.M _ _ mods' (afterTable_ext σ0) (by simp)
+      · intro nm hnm
+        have : ¬ I.M = nm := fun e => hnm (by simp [topDead, e])
+        simp [lookupAssoc, this]
+  obtain ⟨envR, σR, hexR, hextR, hvaR, hlocR⟩ := exec_refPrelude (callClosure ρ (n + 1)) ρ n ⟨[], []⟩ refRequireFn mods' σ0
+  -- related states and environments for the rest
+  have hs0 : Sem.HeapU.SRel (Sem.HeapU.VQ Sem.HeapU.Cx.none) Sem.HeapU.Cx.none Sem.HeapU.initRel σ0 σ0 :=
+    Sem.HeapU.SRel.init (Sem.HeapU.VQ Sem.HeapU.Cx.none) externs trivial
+  have hs := (hs0.extLeft hextB).extRight hextR
+  have he : Sem.HeapU.EnvOK (Sem.HeapU.initRel (N := N)) (topDead I.M) envB envR := by
+    refine ⟨by rw [henvB.1, hvaR]; exact .nil, ?_⟩
+    intro nm hnm
+    rw [henvB.2 nm hnm, hlocR]
+    have h1 : ¬ "__ref_require" = nm := fun e => hnm (by simp [topDead, ← e])
+    have h2 : ¬ "__ref_modules" = nm := fun e => hnm (by simp [topDead, ← e])
+    have h3 : ¬ "__ref_loaded" = nm := fun e => hnm (by simp [topDead, ← e])
+    simp [lookupAssoc, h1, h2, h3, OptRel]
+  have hsound := (Sem.HeapU.reflB (Q := Sem.HeapU.VQ Sem.HeapU.Cx.none) (cx := Sem.HeapU.Cx.none) Sem.HeapU.VQ_refl
+    (.mk stmts last) (topDead I.M) hnoref).2 N (callClosure ρ (n + 1)) ρ (n + 1) envB envR σB σR _
+    ⟨trivial, Sem.HeapU.callClosure_ok ρ hρ (fun _ => trivial) (n + 1), hρ⟩ hs he
+  have hobs := Sem.HeapU.observe_rel (Sem.HeapU.RRel.retWrap hsound)
+  -- put the programs in `prelude ++ rest` form
+  have hB : execB (callClosure ρ (n + 1)) ρ (n + 1) ⟨[], []⟩ (assemble I.M mods' (.mk stmts last)) σ0
+      = execB (callClosure ρ (n + 1)) ρ (n + 1) envB (.mk stmts last) σB := by
+    simp only [assemble]
+    exact execB_append_next _ ρ _ _ stmts last _ _ _ _ hexB
+  have hR : execB (callClosure ρ (n + 1)) ρ (n + 1) ⟨[], []⟩ (referenceBlocks mods' (.mk stmts last)) σ0
+      = execB (callClosure ρ (n + 1)) ρ (n + 1) envR (.mk stmts last) σR := by
+    rw [referenceBlocks_eq]
+    exact execB_append_next _ ρ _ _ stmts last _ _ _ _ hexR
+  simp only [runProgram, runChunk]
+  rw [hB, hR]
+  rcases hobs with ⟨hu, _⟩ | h
+  · cases hu
+  · exact h.symm
+
+-- non-vacuity of `bundle_refines_partial_unrequired`: one bundled module with an effectful body that nobody
+-- requires (the byte inequality of the literal names is passed in: string literals do not reduce in the kernel)
+def exUnrequired : BundleInput :=
+  { M := "__DARKLUA_BUNDLE_MODULES", res := fun _ => none,
+    mods := [("a", .mk [.callStmt (.call (.var "emit") none .tuple [.str [97]])] (some (.ret [.true])))],
+    entry := .mk [.callStmt (.call (.var "emit") none .tuple [.call (.var "require") none .tuple [.str [46, 47, 120]]])]
+      (some (.ret [.true])) }
+
+example (ρ : ExtOracle natOps) (hρ : Sem.HeapU.OracleFlat ρ) (n : Nat) (hac : bytesOf "a" ≠ bytesOf "cache") :
+    runProgram ρ (n + 1) ["emit", "require"] exUnrequired.bundle
+      = runProgram ρ (n + 1) ["emit", "require"] exUnrequired.reference :=
+  bundle_refines_partial_unrequired ρ hρ _ exUnrequired n (fun _ => rfl) (by decide) (by decide) (by simp [exUnrequired])
+    (by intro nb hnb; simp [exUnrequired] at hnb; subst hnb; exact hac) (by decide)
+
+/-- at the oracle the harness runs (`Shared.driverOracle`) no hypothesis on the oracle is left -/
+theorem bundle_refines_partial_unrequired_driver (externs : List String) (I : BundleInput) (n : Nat)
+    (hres : ∀ lit, I.res lit = none) (hMv : I.M ≠ "v") (hMI : I.M ≠ implName)
+    (hnodup : (I.mods.map fun nb => bytesOf nb.1).Nodup) (hcache : ∀ nb ∈ I.mods, bytesOf nb.1 ≠ bytesOf "cache")
+    (hentry : I.reservedOK I.entry = true) :
+    runProgram Shared.driverOracle (n + 1) externs I.bundle = runProgram Shared.driverOracle (n + 1) externs I.reference :=
+  bundle_refines_partial_unrequired _ Sem.HeapU.driverOracle_flat externs I n hres hMv hMI hnodup hcache hentry
+
+end unrequired
+
 /-- **`bundle_refines_partial`** (one module): the statements the bundler puts in front of the entry
 execute to exactly this: the entry's scope gains the modules identifier `M` and nothing else (no
 module local, not `__modImpl`), and the state is the fresh modules table with an empty `cache`
@@ -513,8 +639,9 @@ theorem bundle_prelude_establishes (call : CallFn N) (ρ : ExtOracle N) (k : Nat
       infos.map (fun m => (m.name, m.body)) = mods ∧
       execSs call ρ (k + 1) env (prelude M mods) σ
         = .ok (.next ⟨(M, σ.cells.length) :: env.locals, env.varargs⟩) σ' ∧
-      BI (layoutOf M env σ) infos (fun _ => none) σ' :=
-  prelude_establishes call ρ k env M mods σ hne hMv hMI hnodup hcache
+      BI (layoutOf M env σ) infos (fun _ => none) σ' := by
+  obtain ⟨infos, σ', h1, h2, h3, _⟩ := prelude_establishes call ρ k env M mods σ hne hMv hMI hnodup hcache
+  exact ⟨infos, σ', h1, h2, h3⟩
 
 theorem mem_take_of_getElem? {α : Type} {l : List α} {k n : Nat} {x : α} (hk : k < n) (h : l[k]? = some x) :
     x ∈ l.take n :=
